@@ -2,10 +2,12 @@ mod adapter;
 mod beh;
 mod columns;
 mod common;
+mod direct;
 mod dumpcheck;
 mod extra;
 mod forge;
 mod judge;
+mod relation;
 mod rngtrace;
 mod keyextra;
 mod keylayout;
@@ -188,6 +190,27 @@ fn main() {
             }
             for r in results {
                 println!("{}", serde_json::json!({"result": r}));
+            }
+        }
+        Some("direct") => {
+            install_quiet_panic_hook();
+            let stdin = std::io::stdin();
+            let reqs: Vec<serde_json::Value> = stdin.lock().lines().map(|l| l.unwrap()).filter(|l| !l.trim().is_empty())
+                .map(|l| serde_json::from_str(&l).expect("bad direct behaviour")).collect();
+            let one = |v: &serde_json::Value| match guarded_plain(|| direct::run_line(v)) {
+                Out::Ok(x) => x,
+                o => serde_json::json!({"id": v["id"], "prop": v["prop"], "scheme": v["api"], "verdict": "skip",
+                                        "why": format!("harness aborted: {}", o.detail()), "obs": {"ops": []}}),
+            };
+            #[cfg(feature = "parallel")]
+            let res: Vec<serde_json::Value> = {
+                use rayon::prelude::*;
+                reqs.par_iter().map(one).collect()
+            };
+            #[cfg(not(feature = "parallel"))]
+            let res: Vec<serde_json::Value> = reqs.iter().map(one).collect();
+            for r in res {
+                println!("{}", r);
             }
         }
         Some("helpers") => {
